@@ -307,7 +307,7 @@ def damaged_extract(pattern, folders, opts, mode, unroll=1, by_path=False):
 
     def rp(w_):
         return dict(module="vf.props.c04", func="replay_damage", kwargs=dict(
-            pattern=pattern, folders=folders, opts=opts, mode=mode,
+            pattern=pattern, folders=folders, opts=opts, mode=mode, by_path=by_path,
             selected=[i for i in range(n) if w_.get("sel%d" % i)] if mode != "testzip" else list(range(n)),
             witness={k_: int(v) for k_, v in w_.items() if isinstance(v, int) and not isinstance(v, bool)}))
 
@@ -320,7 +320,7 @@ def damaged_extract(pattern, folders, opts, mode, unroll=1, by_path=False):
     return r
 
 
-def replay_damage(pattern, folders, opts, mode, selected, witness):
+def replay_damage(pattern, folders, opts, mode, selected, witness, by_path=False):
     """damage every selected data member in turn in the concrete counterpart (Copy codec: flip one payload byte) and
     check that the real library never reports success with different content"""
     import os
@@ -347,21 +347,30 @@ def replay_damage(pattern, folders, opts, mode, selected, witness):
         bad = bytearray(img)
         bad[offs[i]] ^= 0x01
         d = tempfile.mkdtemp(prefix="vf_c04_")
+
+        def opened():
+            if by_path:
+                pth = os.path.join(d, "arch.7z")
+                open(pth, "wb").write(bytes(bad))
+                return py7zr.SevenZipFile(pth)
+            return py7zr.SevenZipFile(io.BytesIO(bytes(bad)))
+
         try:
             if mode == "testzip":
-                res = py7zr.SevenZipFile(io.BytesIO(bytes(bad))).testzip()
+                res = opened().testzip()
                 if res is None:
                     return True, "testzip() certifies an archive whose member %s is damaged" % names[i]
                 continue
             if mode == "extractall":
                 fac = BytesIOFactory(10 ** 6)
-                py7zr.SevenZipFile(io.BytesIO(bytes(bad))).extract(targets=[names[j] for j in selected], factory=fac)
+                opened().extract(targets=[names[j] for j in selected], factory=fac)
                 got = {k: v.read() for k, v in fac.products.items()}
             else:
-                py7zr.SevenZipFile(io.BytesIO(bytes(bad))).extract(path=d, targets=[names[j] for j in selected])
+                os.mkdir(os.path.join(d, "out"))
+                opened().extract(path=os.path.join(d, "out"), targets=[names[j] for j in selected])
                 got = {}
                 for j in selected:
-                    p = os.path.join(d, names[j])
+                    p = os.path.join(d, "out", names[j])
                     if os.path.islink(p):
                         got[names[j]] = os.readlink(p).encode()
                     elif os.path.isfile(p):
